@@ -94,6 +94,9 @@ fn render(doc: &Value, dir: &str, fmt: usize) -> Value {
         "file" => Some(json!({"kind": "file", "path": path})),
         "file_trunc" => Some(json!({"kind": "file", "path": path, "append": false})),
         "file_json" => Some(json!({"kind": "file", "path": path, "encoder": {"kind": "json"}})),
+        // a path with a reference whose value is itself the text of a reference: expansion is one pass, here as for the
+        // builders (the loaded appender prints the same path as its programmatic twin)
+        "file_env" => Some(json!({"kind": "file", "path": format!("{}/x$ENV{{LV_CF_OUTER}}.log", dir)})),
         "file_pat" => Some(json!({"kind": "file", "path": path, "encoder": {"pattern": "{l}|{m}{n}"}})),
         "roll_delete" => Some(roll(json!({"trigger": size, "roller": del}))),
         "roll_window" => Some(roll(json!({"kind": "compound", "trigger": {"kind": "size", "limit": spelled_w}, "roller": win(json!({}))}))),
@@ -328,6 +331,7 @@ fn check_format(case: &Value, fmt: usize) -> Option<Value> {
         let twin: Option<Box<dyn log4rs::append::Append>> = match x_variant {
             "file" => Some(Box::new(log4rs::append::file::FileAppender::builder().build(&xp).unwrap())),
             "file_json" => Some(Box::new(log4rs::append::file::FileAppender::builder().encoder(Box::new(log4rs::encode::json::JsonEncoder::new())).build(&xp).unwrap())),
+            "file_env" => Some(Box::new(log4rs::append::file::FileAppender::builder().build(format!("{}/x$ENV{{LV_CF_OUTER}}.log", dir)).unwrap())),
             "file_pat" => Some(Box::new(log4rs::append::file::FileAppender::builder().encoder(Box::new(log4rs::encode::pattern::PatternEncoder::new("{l}|{m}{n}"))).build(&xp).unwrap())),
             "roll_delete" => Some(Box::new(log4rs::append::rolling_file::RollingFileAppender::builder()
                 .build(&xp, Box::new(CompoundPolicy::new(Box::new(SizeTrigger::new(1024)), Box::new(DeleteRoller::new())))).unwrap())),
@@ -385,6 +389,8 @@ fn check_format(case: &Value, fmt: usize) -> Option<Value> {
 /// `configfile <cases.ndjson> <out.ndjson>`
 pub fn main(args: &[String]) {
     quiet_panics();
+    std::env::set_var("LV_CF_OUTER", "$ENV{LV_CF_INNER}");
+    std::env::set_var("LV_CF_INNER", "");
     let rows = read_ndjson(&args[0]);
     let res = par_map(&rows, threads(), |i, c| {
         for fmt in 0..4 {
